@@ -23,16 +23,17 @@ ASSUMPTIONS = [
 ]
 
 RELAXED = {"?": 12}
+TIGHT = {"C": 4, "N": 2, "Fe": 1, "H": 1, "Cl": 0, "?": 3}
 ISO = ["", "0", "13", "235"]
 ELEM = ["C", "N", "Fe", "H", "Cl"]
 CHIR = ["", "@", "@@"]
-HS = ["", "H", "H0", "H1", "H4"]
+HS = ["", "H", "H0", "H1", "H4", "H5", "H9"]
 CHG = ["", "+", "++", "+2", "+10", "-", "---", "-3", "+0", "-20"]
 ATOM_PAL = ["C", "N", "O", "F", "[CH3]", "[O-]", "[N+]", "[Fe+2]", "[13CH4]"]
 
 
 def spelling_meaning(iso, el, chir, h, chg):
-    hn = {"": 0, "H": 1, "H0": 0, "H1": 1, "H4": 4}[h]
+    hn = {"": 0, "H": 1, "H0": 0, "H1": 1, "H4": 4, "H5": 5, "H9": 9}[h]
     if chg == "":
         c = 0
     elif chg[-1].isdigit():
@@ -67,7 +68,8 @@ def plan(tier, seed):
             for first in range(len(ATOM_PAL)):
                 tasks.append(("bonds+atoms", ("ba", n, pi, first)))
     scopes.append({"name": "atom-grid", "isotopes": ISO, "elements": ELEM, "chirality": CHIR, "H": HS, "charges": CHG,
-                   "contexts": ["X", "CX", "X=C", "C(X)C", "C1XC1"], "table": RELAXED})
+                   "contexts": ["X", "CX", "X=C", "C(X)C", "C1XC1", "CC.X", "X.X"],
+                   "tables": [RELAXED, "default", "octet_rule", TIGHT]})
     for i in range(len(ISO)):
         for e in range(len(ELEM)):
             tasks.append(("atom-grid", ("grid", i, e)))
@@ -191,12 +193,15 @@ def run(task):
         for chir, h, chg in itertools.product(CHIR, HS, CHG):
             sp = "[%s%s%s%s%s]" % (iso, el, chir, h, chg)
             r.states += 1
-            for ctx in ("%s", "C%s", "%s=C", "C(%s)C", "C1%sC1"):
-                smi = ctx % sp
+            for ctx in ("%s", "C%s", "%s=C", "C(%s)C", "C1%sC1", "CC.%s", "%s.%s"):
+                smi = ctx % ((sp,) * ctx.count("%s"))
                 x = check(smi, RELAXED, r)
                 if x is not None and ctx == "C%s":
                     sym = misc.tokenize(x)[1]
                     classes.setdefault(spelling_meaning(iso, el, chir, h, chg), {})[sp] = sym
+                # the same spellings under tight tables: lone or bonded atoms whose explicit H alone reach the capacity
+                for tight in ("default", "octet_rule", TIGHT):
+                    check(smi, tight, r)
                 last = (smi, x)
         for mean, d in classes.items():
             r.evaluations += 1
